@@ -134,7 +134,7 @@ class World:
         return [t for t, st in self.status.items() if st == RUN]
 
     def value(self, t, lvl):
-        v = self.table[t][lvl - 1]
+        v = self.table[t - self.spec.get("id0", 0)][lvl - 1]
         if self.run_idx[t] > 0 and self.scratch and self.spec.get("rerun_eps"):
             if lvl <= self.resumed_from.get(t, 0):
                 v = v + self.spec["rerun_eps"]
@@ -152,10 +152,11 @@ class World:
             res[self.metric] = v
         if self.spec.get("cost") is not None:
             # cumulative cost table; a run reports the cost spent by *this* job
-            c = self.spec["cost"][t][lvl - 1]
+            row = self.spec["cost"][t - self.spec.get("id0", 0)]
+            c = row[lvl - 1]
             r0 = self.resumed_from.get(t, 0) if self.run_idx[t] > 0 and not self.scratch else 0
             if r0 > 0:
-                c = c - self.spec["cost"][t][r0 - 1]
+                c = c - row[r0 - 1]
             res[self.spec.get("cost_attr", "cost")] = c
         res.update(self.spec.get("extra_result", {}))
         return res
@@ -233,12 +234,12 @@ class World:
     def _suggest(self, b):
         if self.onehot is not None and b is not None:
             self.onehot.b = b
-        new_id = len(self.trials)
+        new_id = self.spec.get("id0", 0) + len(self.trials)   # id0: trial ids crossing 9 -> 10 (string order != numeric order)
         sug = self.s.suggest(new_id)
         if sug is None:
             return ("suggest", "none")
         if sug.spawn_new_trial_id:
-            if new_id >= self.T:
+            if len(self.trials) >= self.T:
                 return ("suggest", "over_T")
             cfg = dict(sug.config)
             tr = Trial(new_id, cfg, env.DT0)
